@@ -380,12 +380,14 @@ impl CellBuffer {
         w: f32,
         h: f32,
     ) -> Node<MSG> {
-        let fragments_scaled: Vec<FragmentSpan> = fragments
-            .into_iter()
-            .map(|frag| frag.scale(settings.scale))
-            .collect();
+        // The containment forest is built at unit scale, where the width a text claims
+        // (one cell per character) is commensurable with the other fragments; every
+        // fragment is scaled when it becomes a node. (Building it from scaled fragments
+        // made `{tag}` detection depend on the scale setting.)
+        let fragments_unit: Vec<FragmentSpan> =
+            fragments.into_iter().map(|frag| frag.scale(1.0)).collect();
         let fragment_nodes: Vec<Node<MSG>> =
-            FragmentTree::fragments_to_node(fragments_scaled);
+            FragmentTree::fragments_to_node(fragments_unit, settings.scale);
 
         let mut children = vec![];
         if settings.include_styles {
